@@ -290,7 +290,9 @@ def fixture_cases(ctx, fa, limit_bytes):
             continue
         try:
             desc = container.describe(data)
-        except Exception:  # noqa: BLE001 - codec not in the standard library (snappy ...) or not a container
+            if container.walk(data, strict=False)["meta"].get("avro.codec", b"null").decode() not in ("null", "deflate", "bzip2", "xz"):
+                continue      # no standard-library decompressor (snappy, zstandard, lz4)
+        except Exception:  # noqa: BLE001 - not a container
             continue
         case = {"id": "fx_" + os.path.basename(path), "op": "file_ind", "file": list(data), "hs": desc["hs"], "inflate": desc["inflate"],
                 "nblocks": len(desc["walk"]), "fixture": os.path.basename(path)}
@@ -314,9 +316,18 @@ def run_c05(ctx, fa):  # noqa: F811 - the full C05 check
     ind = independent_files(ctx, fa, 150 if ctx.quick() else 2500)
     core.judge_cases(ctx, ind, "ind", ("C05.",), nontrivial_fn=lambda c: c["nblocks"] >= 1,
                      describe=lambda c: "independent-writer file, %d blocks, codec %s" % (c["nblocks"], proj.uncps(c["codec"])))
-    from . import p_suite
+    from . import p_cuts, p_suite
     if not ctx.quick():
         p_suite.run(ctx, {"t_file"}, ("C05.",))
+    # the converse half of C06, owned by C05: a file cut exactly at a block boundary is a layout-valid file and reads back as the blocks before the cut
+    rnd = ctx.sub_rnd("boundary")
+    bfiles = p_cuts.make_files(ctx, fa, 15 if ctx.quick() else 150, "bfiles")
+    core.judge_cases(ctx, [p_cuts.cuts_case(fa, "bc%d" % i, d, rnd, True) for i, d in enumerate(bfiles)], "boundary", ("C05.",),
+                     nontrivial_fn=lambda c: c["nblocks"] >= 1, describe=lambda c: "file_len=%d blocks=%d" % (len(c["file"]), c["nblocks"]))
+    # Java-written fixture files shipped with the test-suite (those whose codec the standard library can inflate)
+    fx = fixture_cases(ctx, fa, 3000 if ctx.quick() else 400000)
+    ctx.extra["fixture_files"] = [c["fixture"] for c in fx]
+    core.judge_cases(ctx, fx, "fixtures", ("C05.",), nontrivial_fn=lambda c: c["nblocks"] >= 1, describe=lambda c: "fixture %s" % c["fixture"])
     core.judge_cases(ctx, is_avro_cases(ctx, fa, 120 if ctx.quick() else 3000), "isavro", ("C05.",), nontrivial_fn=lambda c: len(c["data"]) >= 4,
                      describe=lambda c: "is_avro(%r)" % bytes(c["data"])[:12])
     ctx.rule += ("; plus spec-generated independent-writer files (any block partition, empty blocks, chunked header map in either count form, codec key "
